@@ -141,6 +141,17 @@ CLAIMS = {
         note="PARTIAL: only function_input_base is modelled. Successor caches / broadcast fan-out, input_node, multifunction/continue/async nodes, reserve_wait, cancellation and exceptions in a graph are "
              "covered by real-thread oracle runs only (limit, exactly-once per node, once per successor, idle at wait_for_all); the pull path of rejecting nodes with buffering predecessors is exercised under C15.",
         ref="4/C14"),
+    "C02": dict(
+        technique="Coq proof: inductive invariant over all interleavings (any number of waiters and notifiers) of the concurrent_monitor wait/notify protocol; step-level differential tie against the real "
+                  "r1::concurrent_monitor driven by one OS thread with counting wait nodes; real-thread oracle runs",
+        text="Proved: in every reachable configuration the wait set holds exactly the waiters between prepare_wait and return, a waiter in it has no wake-up pending and a waiter removed by a notifier has exactly "
+             "one, semaphore counts never go negative; a waiter that committed to sleep with nothing pending is still in the wait set and no notifier has finished; hence once every notifier (set condition, then "
+             "notify_all) has finished, the condition is true and no waiter is blocked (no lost wake-up), including the skipped-wake-up path pumped by the next prepare_wait. Tie: the real monitor's "
+             "prepare_wait / commit_wait / cancel_wait / notify_all are called in scripted orders for 1-4 logical waiters and 1-3 notifiers; every observable event and the epoch are compared with the model.",
+        note="PARTIAL: the model is sequentially consistent at call granularity: fences, the monitor's mutex, binary_semaphore/futex, notify_one / predicate notifications, thread_control_monitor, "
+             "address_waiter (rw_mutex, mutex), the arena's worker wake-up and thread_request_serializer are not modelled; they are exercised by real-thread runs (monitor stress, enqueue into an arena "
+             "nobody waits in, blocked bounded-queue operations under C09, late resume in a worker-less arena under C20). Liveness is stated as 'no waiter is blocked once notifiers are done'; fairness of the OS scheduler is assumed.",
+        ref="4/C02"),
     "C20": dict(
         technique="Coq proof: exact characterisation of the reachable configurations of the suspend/resume handshake (inductive invariant, all interleavings); real suspend/resume runs with racing resumers under an exactly-once oracle",
         text="For every interleaving of the suspending thread's exchange(suspended)/self-resume with a resume() from anywhere (incl. the suspend callback itself): at most one resume task is pushed, "
